@@ -45,7 +45,7 @@ func (s *Service) AggregateAttestation(ctx context.Context,
 	// We create a cancelable context with a timeout.  When a provider responds we cancel the context to cancel the other requests.
 	ctx, cancel := context.WithTimeout(ctx, s.timeout)
 
-	respCh := make(chan *phase0.Attestation, 1)
+	respCh := make(chan *phase0.Attestation, len(s.aggregateAttestationProviders))
 	for name, provider := range s.aggregateAttestationProviders {
 		go func(ctx context.Context,
 			name string,
